@@ -130,3 +130,17 @@ Proof.
   - destruct (need_catchup (ob_catchup ob) q) as [cu sup]. destruct sup; [cbn; lia|].
     destruct (ob_snap ob) as [[s e']|]; [|cbn; lia]. destruct (in_snap _ q); cbn; lia.
 Qed.
+
+(* a closed observer forwards nothing (it can still stop the client on an out-of-snapshot event) *)
+Lemma obs_event_closed c ob e : ob_closed ob = true -> snd (obs_event c ob e) = FNone \/ snd (obs_event c ob e) = FFail.
+Proof.
+  intros H. destruct ob as [sn uu cu cl ecl la m d x]. cbn in H. subst cl.
+  destruct e as [s e'|k it|k q cid|q|]; cbn [obs_event ob_catchup ob_snap ob_closed with_snap with_catchup mk_offset].
+  - now left.
+  - destruct (need_catchup cu (i_seq it)) as [cu' [|]]; [now left|]. destruct (before_skip c (i_cas it)); [now left|].
+    destruct sn as [[s e']|]; [|now right]. destruct (in_snap _ _); [now left|now right].
+  - destruct (need_catchup cu q) as [cu' [|]]; [now left|]. destruct sn as [[s e']|]; [|now right].
+    destruct (in_snap _ _); [now left|now right].
+  - now left.
+  - now left.
+Qed.
